@@ -261,6 +261,7 @@ impl<'a> Renderer<'a> {
     fn const_text(&mut self, c: &Const) -> String {
         match c {
             Const::Canonical(s) => s.to_string(),
+            Const::Spelled(spelling, _) => spelling.to_string(),
             Const::Int(n) => n.to_string(),
             Const::Half(n) => format!("{}.5", n),
             Const::True => self.st.of(&["true", "right", "yes", "ok"]).to_string(),
